@@ -35,6 +35,23 @@ type tcase struct {
 	n      int
 }
 
+// render concretises a case: the featgen rendering, plus one local variant that featgen (shared with
+// the source-info skeletons) does not have: with both "map" and "jsonname" the map field carries a
+// custom json_name, so that the synthetic entry name (derived from the field NAME) and the JSON name
+// differ (round-2 seed C10).
+func render(c *tcase) map[string]string {
+	texts := featgen.Render(&c.Case)
+	hasMap, hasJSON := false, false
+	for _, f := range c.Features {
+		hasMap = hasMap || f == "map"
+		hasJSON = hasJSON || f == "jsonname"
+	}
+	if hasMap && hasJSON {
+		texts[featgen.Main] = strings.Replace(texts[featgen.Main], "> m = 6;", "> m = 6 [json_name = \"zapMap\"];", 1)
+	}
+	return texts
+}
+
 type mismatch struct {
 	N      int    `json:"n"`
 	Class  string `json:"class"`
@@ -94,7 +111,7 @@ func noSI(fd *descriptorpb.FileDescriptorProto) []byte {
 // ---------------------------------------------------------------------------------------------
 
 func sanity(c *tcase) bool {
-	texts := featgen.Render(&c.Case)
+	texts := render(c)
 	fs, err := compile(srcResolver(texts), protocompile.SourceInfoStandard, featgen.Main)
 	if err != nil {
 		report(c, "HARNESS:does-not-compile", err.Error()+"\n"+texts[featgen.Main])
@@ -297,7 +314,7 @@ func scribble(m protoreflect.Message) {
 }
 
 func cloneCheck(c *tcase) {
-	texts := featgen.Render(&c.Case)
+	texts := render(c)
 	h := reporter.NewHandler(nil)
 	fn, err := parser.Parse(featgen.Main, strings.NewReader(texts[featgen.Main]), h)
 	if err != nil {
@@ -409,7 +426,7 @@ type supplied struct {
 func short(path string) string { return strings.TrimSuffix(path, ".proto") }
 
 func formsCheck(c *tcase) {
-	texts := featgen.Render(&c.Case)
+	texts := render(c)
 	mode := siMode(c.SIMode)
 	ref, err := compile(srcResolver(texts), mode, featgen.Main)
 	if err != nil {
@@ -608,7 +625,7 @@ func sup0(sup map[string]*supplied, path string) string {
 // C10
 
 func relinkCheck(c *tcase) {
-	texts := featgen.Render(&c.Case)
+	texts := render(c)
 	for _, mode := range []protocompile.SourceInfoMode{protocompile.SourceInfoNone, protocompile.SourceInfoStandard} {
 		first, err := compile(srcResolver(texts), mode, featgen.Main)
 		if err != nil {
